@@ -186,6 +186,28 @@ func nlTerm(b []byte) []byte {
 	return b
 }
 
+// isDefault reports whether f is a row of NewDefaultConverter()'s own table.
+func isDefault(f filt) bool {
+	return (f.Pattern == "*.pl" && f.Variant == "perl") || ((f.Pattern == "*.sh" || f.Pattern == "*.subr") && f.Variant == "shell")
+}
+
+// mkFilter is the Filter installed for a row.
+func mkFilter(f filt) shellfuncsfile.Filter {
+	switch f.Variant {
+	case "shell":
+		return shellfuncsfile.FromShell
+	case "perl":
+		return shellfuncsfile.FromPerl
+	}
+	return func(name string, r io.Reader) ([]byte, error) {
+		b, err := io.ReadAll(r)
+		if err != nil {
+			return nil, err
+		}
+		return apply(&f, name, b), nil
+	}
+}
+
 // install builds the converter under test for a table.
 func install(t *table) *shellfuncsfile.Converter {
 	if t.Base == "zero" {
@@ -196,17 +218,10 @@ func install(t *table) *shellfuncsfile.Converter {
 		c.SetFilter(p, nil)
 	}
 	for _, f := range t.Filters {
-		if f.Variant == "shell" || f.Variant == "perl" {
+		if isDefault(f) {
 			continue // the untouched default
 		}
-		f := f
-		c.SetFilter(f.Pattern, func(name string, r io.Reader) ([]byte, error) {
-			b, err := io.ReadAll(r)
-			if err != nil {
-				return nil, err
-			}
-			return apply(&f, name, b), nil
-		})
+		c.SetFilter(f.Pattern, mkFilter(f))
 	}
 	return c
 }
@@ -1055,6 +1070,18 @@ type treeCheck struct {
 	probe int
 	cnt   map[string]int64
 	orig  []string // listing before any culprit was removed
+
+	engine  string   // "" = "tree"
+	cprefix string   // prefix of this engine's counter names
+	hist    []string // what was done to the converter / to the files so far (history and metadata engines)
+	src     string   // history engine: the source being converted (for the fresh-converter comparison)
+}
+
+func (tc *treeCheck) eng() string {
+	if tc.engine == "" {
+		return "tree"
+	}
+	return tc.engine
 }
 
 func (tc *treeCheck) violate(key, what string, extra map[string]any) {
@@ -1065,10 +1092,24 @@ func (tc *treeCheck) violate(key, what string, extra map[string]any) {
 	for k, v := range extra {
 		w[k] = v
 	}
-	tc.r.Violate("tree", tc.i, key, strings.ReplaceAll(what, "\n", `\n`), w)
+	if len(tc.hist) > 0 {
+		w["history"] = append([]string{}, tc.hist...)
+	}
+	if tc.engine == "history" {
+		// Does a converter that was never used, built with the table as it is
+		// now, give the reference?  Then the defect lies in what the used
+		// converter remembers, and the key says so.
+		if ok, res := tc.freshAgrees(); ok {
+			key = "used-converter:" + key
+			what = "a converter used before its filter table was changed: " + what + " (a fresh converter with the same table gives the reference payload)"
+		} else {
+			w["fresh_converter_same_table"] = res
+		}
+	}
+	tc.r.Violate(tc.eng(), tc.i, key, strings.ReplaceAll(what, "\n", `\n`), w)
 }
 
-func (tc *treeCheck) count(name string, n int64) { tc.cnt[name] += n }
+func (tc *treeCheck) count(name string, n int64) { tc.cnt[tc.cprefix+name] += n }
 
 // judgeFail handles a failed conversion of directory v observed at `where`:
 // every generated tree is free of legitimate causes of failure, so the failure
@@ -1501,20 +1542,8 @@ func checkTree(r *mon.Run, i int, bins *binaries, inBinarySample bool) {
 	tc.count("tables:"+tb.Kind, 1)
 	tc.census()
 
-	// the model used for diagnosis must agree with what is on disk
-	{
-		_, names, err := refDir(tb, v.dir)
-		var model []string
-		for _, e := range v.top {
-			if !e.dot() && e.regular() && tb.first(e.Name) != nil {
-				model = append(model, e.Name)
-			}
-		}
-		sort.Strings(model)
-		if err != nil || strings.Join(names, "\x00") != strings.Join(model, "\x00") {
-			r.Inconclusive(fmt.Sprintf("tree %d: generator model and disk disagree: %q vs %q (%v)", i, model, names, err))
-			return
-		}
+	if !modelAgrees(r, "tree", i, tb, v) {
+		return
 	}
 	prng := r.Rng("pick", i)
 	if inBinarySample {
@@ -1715,13 +1744,17 @@ func (tc *treeCheck) census() {
 
 // Run is the check.
 func Run(r *mon.Run) {
-	r.Rule = "one case = one generated directory tree (2-14 top-level entries: regular files, valid links to files and directories, dangling links among dot-files and non-matching names (targets that do not exist, and targets whose resolution fails otherwise: through a regular file, an over-long component, the link itself), editor lock links, sub-directories with matching names inside; names with spaces, glob characters, leading dots, several extensions; empty / newline-only / unterminated / CRLF / non-UTF-8 contents) together with one filter table (the defaults, defaults with patterns removed, or user-modified tables of overlapping patterns whose tagging filters print <pattern|name|content>). Per tree: Converter.From(dir) against the reference model, 3 sequential and 4 concurrent calls (plus concurrent SetFilter of an unrelated pattern), explicitly named single files, several sources; a sample of default-table trees through the real curlrevshell -print-ctrl-i and the shellfuncsfile tool. distinct_nontrivial = distinct (filter table, entry names, kinds, content classes) signatures"
+	r.Rule = "one case = one generated directory tree (2-14 top-level entries: regular files, valid links to files and directories, dangling links among dot-files and non-matching names (targets that do not exist, and targets whose resolution fails otherwise: through a regular file, an over-long component, the link itself), editor lock links, sub-directories with matching names inside; names with spaces, glob characters, leading dots, several extensions; empty / newline-only / unterminated / CRLF / non-UTF-8 contents) together with one filter table (the defaults, defaults with patterns removed, or user-modified tables of overlapping patterns whose tagging filters print <pattern|name|content>). Per tree: Converter.From(dir) against the reference model, 3 sequential and 4 concurrent calls (plus concurrent SetFilter of an unrelated pattern), explicitly named single files, several sources; a sample of default-table trees through the real curlrevshell -print-ctrl-i and the shellfuncsfile tool. distinct_nontrivial = distinct (filter table, entry names, kinds, content classes) signatures. " +
+		"Engine 'history': ONE Converter lives through 3-8 steps of From(dir) / From(single file) / From(several sources) / SetFilter(add a pattern) / SetFilter(another filter for a pattern) / SetFilter(pattern, nil) - preferably of the pattern that a file present in the directory is converted by - / SetFilter(a removed pattern again) / SetFilter(absent pattern, nil); the filters are tagging filters, FromShell and FromPerl; every From is judged against the reference model for the table as it is AT THAT MOMENT (a violation that a never-used converter with the same table does not show gets the key prefix 'used-converter:'). " +
+		"Engine 'meta': a generated tree + table is converted with ordinary metadata (files 0644 in a 0755 directory, owned by the caller, fresh time stamps, one link, dense), then 3-8 changes of metadata that touch neither content nor eligibility are applied one after the other - permission bits of (mostly eligible) files and of targets of eligible links (0666 0777 0606 0646, 0664 0775, 0444 0400 0555, setuid/setgid/sticky, 0755 0700, 0600 0640 ...), of the directory (0777 1777 2775 0555 0500 ...), owner/group 65534 for files and directory, mtime/atime from 1901 to 3000, 1-2 more hard links (outside the directory or under a dot-name inside), the same bytes re-written with a hole (sparse) - and the directory is converted after each change: the payload must stay byte-for-byte the one built with ordinary metadata; afterwards the changed files as single sources, a never-used converter, and for a sample of default-table trees the real binaries"
 	r.Assumptions = []string{
 		"per-file conversion by FromPerl is taken from the library (judged by C16); the appended list function is taken from GenFuncList (judged by C18)",
 		"filter patterns are well-formed; filters never fail",
 		"a dangling symlink whose name matches a pattern and does not start with '.' is not covered by the statement and is never generated",
 		"SetFilter on a zero Converter{} panics on this tree (nil map); user-modified tables are therefore built on NewDefaultConverter() with defaults removed by SetFilter(p, nil); the zero Converter is only used without filters",
 		"files do not change during a call; FIFOs and devices are not generated",
+		"history engine: SetFilter is never called while a From of the same converter runs (that is the tree engine's concurrent case, with an unrelated pattern); the trees of a history are generated for the union of all patterns the history may use, so that no dangling link ever has a non-dot name matching a pattern of any of its tables",
+		"meta engine: the harness runs as root (chown to 65534 is possible and every mode leaves the file readable for the caller: all modes used include owner-read anyway); a change the platform refuses is counted as not possible, and the floors then make the run inconclusive; files outside the case's own scratch directory (targets like /proc/version) are never touched; a sparse file is only counted if stat reports fewer allocated bytes than its size; the run of NUL bytes needed for a hole is first written densely (a content change, judged against the reference) and only then re-written sparsely",
 	}
 	n := r.N(500, 10000)
 	nb := r.N(10, 100)
@@ -1739,12 +1772,73 @@ func Run(r *mon.Run) {
 			r.Inconclusive(bins.err)
 		}
 	}
-	mon.Parallel(n, runtime.NumCPU(), func(i int) {
-		if r.Want("tree", i) {
-			checkTree(r, i, bins, sample[i])
+	nh := r.N(500, 8000)
+	nm := r.N(320, 6000)
+	nbm := r.N(6, 40)
+	msample := map[int]bool{}
+	for i := 0; i < nm && len(msample) < nbm; i++ {
+		if metaTable(r.Rng("meta", i)).Kind == "default" {
+			msample[i] = true
+		}
+	}
+	mon.Parallel(n+nh+nm, runtime.NumCPU(), func(j int) {
+		switch {
+		case j < n:
+			if r.Want("tree", j) {
+				checkTree(r, j, bins, sample[j])
+			}
+		case j < n+nh:
+			if i := j - n; r.Want("history", i) {
+				checkHistory(r, i)
+			}
+		default:
+			if i := j - n - nh; r.Want("meta", i) {
+				checkMeta(r, i, bins, msample[i])
+			}
 		}
 	})
 	fl := func(x int) int64 { return int64(x) }
+	// converter histories
+	r.Floor("history:histories", fl(nh))
+	r.Floor("history:from_dir", fl(nh*2))
+	r.Floor("history:payload_comparisons", fl(nh*2))
+	r.Floor("history:from_dir_after_table_change_on_used_converter", fl(nh/2))
+	r.Floor("history:from_dir_after_removal_of_a_matched_pattern", fl(nh/5))
+	r.Floor("history:from_dir_right_after_removal_of_a_matched_pattern", fl(nh/8))
+	r.Floor("history:from_dir_after_removal_then_other_setfilter", fl(nh/16))
+	r.Floor("history:from_dir_after_putting_a_removed_pattern_back", fl(nh/20))
+	r.Floor("history:from_file", fl(nh/5))
+	r.Floor("history:from_file_after_removal", fl(nh/50))
+	r.Floor("history:from_several", fl(nh/5))
+	r.Floor("history:setfilter_add", fl(nh/4))
+	r.Floor("history:setfilter_replace", fl(nh/5))
+	r.Floor("history:setfilter_delete_matched", fl(nh/4))
+	r.Floor("history:setfilter_delete_absent", fl(nh/10))
+	r.Floor("history:setfilter_readd", fl(nh/6))
+	// metadata
+	r.Floor("meta:trees", fl(nm))
+	r.Floor("meta:trees_with_eligible_files", fl(nm*8/10))
+	r.Floor("meta:changes", fl(nm*3))
+	r.Floor("meta:payload_comparisons", fl(nm*3))
+	r.Floor("meta:changes_on_eligible_files:file-mode-world-writable", fl(nm/5))
+	r.Floor("meta:changes_on_eligible_files:file-mode-setid-or-sticky", fl(nm/5))
+	r.Floor("meta:changes_on_eligible_files:file-mode-group-writable", fl(nm/10))
+	r.Floor("meta:changes_on_eligible_files:file-mode-read-only", fl(nm/6))
+	r.Floor("meta:changes_on_eligible_files:file-mode-executable", fl(nm/12))
+	r.Floor("meta:changes_on_eligible_files:file-owner", fl(nm/5))
+	r.Floor("meta:changes_on_eligible_files:file-times", fl(nm/5))
+	r.Floor("meta:changes_on_eligible_files:hard-link", fl(nm/5))
+	r.Floor("meta:changes_on_eligible_files:sparse-file", fl(nm/5))
+	r.Floor("meta:changes_on_targets_of_eligible_links", fl(nm/20))
+	r.Floor("meta:changes:file-times-before-1970-or-after-2106", fl(nm/8))
+	r.Floor("meta:changes:hard-link-count-3-or-more", fl(nm/8))
+	r.Floor("meta:changes:dir-mode-world-writable", fl(nm/16))
+	r.Floor("meta:changes:dir-mode-setid-or-sticky", fl(nm/16))
+	r.Floor("meta:changes:dir-mode-read-only", fl(nm/20))
+	r.Floor("meta:changes:dir-owner", fl(nm/4))
+	r.Floor("meta:changes:dir-times", fl(nm/4))
+	r.Floor("meta:singlefile_calls", fl(nm))
+	r.Floor("meta:binary_runs", fl(nbm*2))
 	r.Floor("trees", fl(n))
 	r.Floor("payload_comparisons", fl(n*9/10))
 	r.Floor("from_calls", fl(n*8))
